@@ -277,16 +277,39 @@ func genC08Input(t *rapid.T) (src string, origin string) {
 		// a valid program or a soup with one or two characters replaced by (or followed
 		// by) non-ASCII digits, letters, blanks and case-folding oddities
 		var base string
-		if rapid.Bool().Draw(t, "ubase") {
+		switch rapid.IntRange(0, 4).Draw(t, "ubase") {
+		case 0, 1:
 			p, _, _ := GenFullProgram(t, FullOpts{Wide: true, Transforms: true, MaxCmds: 2})
 			base = p.Source()
-		} else {
+		case 2:
+			base = rapid.SampledFrom(escapeHeavySources).Draw(t, "uescapes")
+		default:
 			base = GenTokenSoup(t)
 		}
 		rs := []rune(base)
 		for n := rapid.IntRange(1, 2).Draw(t, "nsubst"); n > 0 && len(rs) > 0; n-- {
 			i := rapid.IntRange(0, len(rs)-1).Draw(t, "upos")
 			u := []rune(rapid.SampledFrom(unicodeOddities).Draw(t, "uchar"))
+			if rapid.IntRange(0, 2).Draw(t, "confusable") == 0 {
+				// the look-alike of the character at a drawn position: fullwidth forms of
+				// ASCII letters and digits, other decimal digit blocks for digits
+				var cands []int
+				for k, r := range rs {
+					if r >= '0' && r <= '9' || r >= 'a' && r <= 'z' || r >= 'A' && r <= 'Z' {
+						cands = append(cands, k)
+					}
+				}
+				if len(cands) > 0 {
+					i = cands[rapid.IntRange(0, len(cands)-1).Draw(t, "cpos")]
+					r := rs[i]
+					alts := []rune{r + 0xfee0}
+					if r >= '0' && r <= '9' {
+						alts = append(alts, 0x660+(r-'0'), 0x966+(r-'0'), 0x1d7d8+(r-'0'))
+					}
+					rs[i] = rapid.SampledFrom(alts).Draw(t, "lookalike")
+					continue
+				}
+			}
 			if rapid.Bool().Draw(t, "uinsert") {
 				rs = append(rs[:i], append(append([]rune{}, u...), rs[i:]...)...)
 			} else {
@@ -343,6 +366,16 @@ func genC08Input(t *rapid.T) (src string, origin string) {
 		toks := p.Tokens()
 		return Layout(toks, GenLayout(t, toks)), "layout"
 	}
+}
+
+// sources dense in escapes, numbers and keywords for the look-alike substitution
+var escapeHeavySources = []string{
+	`find all '\x41\x4a' "\x7F\x0d"`,
+	`find all "\x41" at least 12 '\x4F'`,
+	`find skip 10 take 25 between 2 and 13 digit`,
+	`find all @/a{2,13}\d[0-9a-f]\x41/`,
+	`set f to transform return 10 + 25 * matchLength end replace all 'a' with f '\x30'`,
+	`find top 3 in 'a' to 'f', '0' to '9', "\x41"`,
 }
 
 var unicodeOddities = []string{"\u0663", "\u0664", "\uff14", "\u096a", "\u00e9", "\u00a0", "\u2028", "\u0130", "\u212a", "\u017f", "\u00df", "\u01c5", "\u2160", "\u00b2", "\ufeff", "\u200b", "\u65e5", "\U0001d7d8", "\x80", "\xff"}
